@@ -154,18 +154,19 @@ class StackSpec(Spec):
         eo = lambda k: old.list_el(p.AV, k)
         en = lambda k: st.list_el(p.AV, k)
         # order-preserving removal, stated with explicit witnesses (forall-only): every new element is an old one (or x), every old one but x survives
-        witnessed = [Clause("new-elements-come-from-old", forall([i], z3.Implies(z3.And(i >= 0, i < n_n), z3.Or(
+        witnessed = [Clause("other-registers:new-elements-come-from-old", forall([i], z3.Implies(z3.And(i >= 0, i < n_n), z3.Or(
             en(i) == x, z3.And(i < n_o, en(i) == eo(i)), z3.And(i + 1 < n_o, en(i) == eo(i + 1))))), "lemma"),
             Clause("old-elements-survive", forall([i], z3.Implies(z3.And(i >= 0, i < n_o, eo(i) != x), z3.Or(
                 z3.And(i < n_n, en(i) == eo(i)), z3.And(i >= 1, i - 1 < n_n, en(i - 1) == eo(i))))), "lemma")]
+        # (these two forall-only clauses ARE the statement "every other register keeps its availability"; the equivalent
+        #  exists-form is not posed separately: it was an unstable query, 0.05 s .. >60 s on identical input)
         frame = lambda names: A("frame-other-containers", z3.And(*[z3.And(st.dict_dom(c) == old.dict_dom(c), st.dict_vals(c) == old.dict_vals(c)) for c in names]))
         m = self.method
         if m == "push":
             blocked = z3.And(z3.Or(old.dict_has(p.RE, x), z3.Not(old.dict_has(p.AL, x))), x >= 0)
             out += witnessed + [frame([p.AL, p.RE, p.NI])]
             out += [C("reserved-or-foreign-registers-are-not-made-available", z3.Implies(blocked, z3.And(n_n == n_o, st.list_arr(p.AV) == old.list_arr(p.AV)))),
-                    C("otherwise-on-top", z3.Implies(z3.Not(blocked), z3.And(n_n >= 1, st.list_el(p.AV, n_n - 1) == x))),
-                    C("other-registers-keep-their-availability", same_others)]
+                    C("otherwise-on-top", z3.Implies(z3.Not(blocked), z3.And(n_n >= 1, st.list_el(p.AV, n_n - 1) == x)))]
         elif m == "pop":
             r = REG_INDEX(res.z)
             ni_o, ni_n = old.dict_val(p.NI, p.key), st.dict_val(p.NI, p.key)
@@ -185,8 +186,7 @@ class StackSpec(Spec):
             out += [C("allocatable", st.dict_has(p.AL, x)), C("available-unless-reserved", z3.Implies(z3.Not(old.dict_has(p.RE, x)), mem_n(x)))]
         elif m == "exclude_register":
             out += witnessed + [frame([p.RE, p.NI])]
-            out += [C("not-available", z3.Not(mem_n(x))), C("not-allocatable", z3.Not(st.dict_has(p.AL, x))),
-                    C("other-registers-keep-their-availability", same_others)]
+            out += [C("not-available", z3.Not(mem_n(x))), C("not-allocatable", z3.Not(st.dict_has(p.AL, x)))]
         return out
 
     def post_exc(self, old, st, a, exc):
@@ -203,12 +203,15 @@ class StackSpec(Spec):
         return None
 
     def native_search(self, inst, seed):
+        r = _native_stack("quick", seed)
+        if r["failures"]:
+            return r["failures"][0]
         r = N19.explore("quick", seed)
         return r["failures"][0] if r["failures"] else None
 
 
 def _native_stack(tier, seed):
-    """Real RegisterStack vs a duplicate-free stack model on seeded operation sequences."""
+    """Real RegisterStack vs a model (allocatable set, available duplicate-free stack, reservation counts) on seeded operation sequences."""
     import random
 
     from xdsl.backend.register_stack import OutOfRegisters, RegisterStack
@@ -216,38 +219,89 @@ def _native_stack(tier, seed):
 
     rnd = random.Random(seed)
     regs = [riscv.IntRegisterType.from_name(n) for n in ("t0", "t1", "t2", "t3")]
+    key = regs[0].register_pool_key()
     cases = 0
+
+    def fail(why):
+        return {"cases": cases, "failures": [{"key": "C19/stack", "why": why}], "exhaustive": False, "bound": ""}
+
     for _ in range(300 if tier == "quick" else 5000):
         s = RegisterStack.get([regs[0], regs[1], regs[2]], allow_infinite=rnd.random() < 0.5)
+        alloc = {r.index.data for r in regs[:3]}
+        avail = [r.index.data for r in regs[:3]]
         held = []
         reserved = {}
+        trace = []
         for _ in range(15):
             cases += 1
             k = rnd.random()
-            if k < 0.4:
+            if k < 0.35:
+                trace.append("pop")
                 try:
                     r = s.pop(riscv.IntRegisterType)
                 except OutOfRegisters:
+                    if avail:
+                        return fail(f"{trace}: OutOfRegisters although {avail} are available")
                     continue
+                except AssertionError:
+                    # documented misuse: an infinite (negative index) register reserved while it is on the stack
+                    if avail and avail[-1] < 0 and reserved.get(avail[-1], 0) > 0:
+                        break
+                    return fail(f"{trace}: pop asserted although the top of the stack is not a reserved infinite register")
+                if avail:
+                    exp = avail.pop()
+                    if r.index.data != exp:
+                        return fail(f"{trace}: popped index {r.index.data}, model says {exp}")
                 if any(r == h for h in held):
-                    return {"cases": cases, "failures": [{"key": "C19/stack", "why": f"{r} popped twice without an intervening push"}], "exhaustive": False, "bound": ""}
-                if reserved.get(r.register_name.data, 0) > 0:
-                    return {"cases": cases, "failures": [{"key": "C19/stack", "why": f"popped reserved register {r}"}], "exhaustive": False, "bound": ""}
+                    return fail(f"{trace}: {r} handed out twice without an intervening push")
+                if reserved.get(r.index.data, 0) > 0:
+                    return fail(f"{trace}: popped reserved register {r}")
                 held.append(r)
-            elif k < 0.7 and held:
+            elif k < 0.6 and held:
                 r = held.pop(rnd.randrange(len(held)))
+                trace.append(f"push {r.register_name.data}")
                 s.push(r)
-            elif k < 0.85 and held:
+                i = r.index.data
+                if not ((i in reserved and reserved[i] > 0) or i not in alloc) or i < 0:
+                    if i in avail:
+                        avail.remove(i)
+                    avail.append(i)
+            elif k < 0.7 and held:
                 r = rnd.choice(held)
+                trace.append(f"reserve {r.register_name.data}")
                 s.reserve_register(r)
-                reserved[r.register_name.data] = reserved.get(r.register_name.data, 0) + 1
-            elif held:
-                cand = [h for h in held if reserved.get(h.register_name.data, 0) > 0]
+                reserved[r.index.data] = reserved.get(r.index.data, 0) + 1
+            elif k < 0.8:
+                cand = [h for h in held if reserved.get(h.index.data, 0) > 0]
                 if cand:
                     r = rnd.choice(cand)
+                    trace.append(f"unreserve {r.register_name.data}")
                     s.unreserve_register(r)
-                    reserved[r.register_name.data] -= 1
-    return {"cases": cases, "failures": [], "exhaustive": False, "bound": "seeded pop/push/reserve/unreserve sequences on a 3-register pool (finite and infinite): no register handed out twice, reserved registers never popped"}
+                    reserved[r.index.data] -= 1
+            elif k < 0.9:
+                r = rnd.choice(regs)
+                trace.append(f"exclude {r.register_name.data}")
+                s.exclude_register(r)
+                alloc.discard(r.index.data)
+                if r.index.data in avail:
+                    avail.remove(r.index.data)
+            else:
+                r = rnd.choice(regs)
+                if any(r == h for h in held):
+                    continue
+                trace.append(f"include {r.register_name.data}")
+                s.include_register(r)
+                i = r.index.data
+                alloc.add(i)
+                if not (reserved.get(i, 0) > 0):
+                    if i in avail:
+                        avail.remove(i)
+                    avail.append(i)
+            if list(s.available_registers[key]) != avail or set(s.allocatable_registers[key]) != alloc:
+                return fail(f"{trace}: available={list(s.available_registers[key])} allocatable={sorted(s.allocatable_registers[key])}, model available={avail} allocatable={sorted(alloc)}")
+    return {"cases": cases, "failures": [], "exhaustive": False,
+            "bound": "seeded pop/push/reserve/unreserve/exclude/include sequences on a 3-register pool (finite and infinite) against a stack model: same available "
+                     "stack and allocatable set after every call, no register handed out twice, reserved registers never popped"}
 
 
 NATIVE = [("allocated-functions", N19.explore), ("register-stack-model", _native_stack)]
